@@ -204,6 +204,7 @@ def main():
     import argparse
     ap = argparse.ArgumentParser()
     ap.add_argument('--seed', type=int, default=1)
+    ap.add_argument('--seeds', type=int, default=1, help='number of consecutive seeds (the runner prints 3 samples per row and seed)')
     ap.add_argument('--n', type=int, default=40)
     ap.add_argument('--rows', default='all')
     ap.add_argument('--crate', default=None)
@@ -234,11 +235,13 @@ def main():
     out = ''
     viol = []
     for r in rows:
-        p = subprocess.run([runner, 'sample', r, str(a.seed), str(a.n)], stdout=subprocess.PIPE, stderr=subprocess.PIPE, text=True)
-        out += p.stdout
+        for sd in range(a.seed, a.seed + a.seeds):
+            p = subprocess.run([runner, 'sample', r, str(sd), str(a.n)], stdout=subprocess.PIPE, stderr=subprocess.PIPE, text=True)
+            out += p.stdout
     for ln in out.split('\n'):
         if ln.startswith('VIOLATED '):
             viol.append(ln)
+    viol_rows = sorted(set(v.split()[1] for v in viol))
     samples = parse_sample_lines(out)
     bad = compare(samples)
     for b in bad:
@@ -248,7 +251,7 @@ def main():
         for v in viol:
             print(v[:400])
     print('%d samples of %d rows compared with llvm-mc: %d disagreements; %d rows had a violated sample (contract violations are kx.py\'s business, not this check)' % (
-        len(samples), len(rows_seen), len(bad), len(viol)))
+        len(samples), len(rows_seen), len(bad), len(viol_rows)))
     return 1 if bad else 0
 
 
